@@ -21,9 +21,10 @@ struct M
   bool in_step;
   bool finished;
 } m;
-enum { P_MOVE_ADVANCE = 0, P_COPY_ADVANCE, P_RAW_ADVANCE, P_KEPT_NODE, P_SELF_ASSIGN, P_LAST_REF_BY_ASSIGN, P_CYCLE, P_LONG_CHAIN };
+enum { P_MOVE_ADVANCE = 0, P_COPY_ADVANCE, P_RAW_ADVANCE, P_KEPT_NODE, P_SELF_ASSIGN, P_LAST_REF_BY_ASSIGN, P_CYCLE, P_LONG_CHAIN, P_FAR_APART };
+int far_expected, far_done_seen;
 const char *probe_names[] = {"advanced_by_move_assignment", "advanced_by_copy_assignment", "advanced_by_raw_pointer_assignment", "node_held_by_a_second_handle",
-                             "self_assignment_executed", "assignment_released_the_object_holding_its_source", "ownership_cycle_broken_by_assigning_to_a_member_handle", "chain_of_1500_to_5000_objects_released_at_its_head", nullptr};
+                             "self_assignment_executed", "assignment_released_the_object_holding_its_source", "ownership_cycle_broken_by_assigning_to_a_member_handle", "chain_of_1500_to_5000_objects_released_at_its_head", "handles_to_objects_2^31_or_more_bytes_apart_compared", nullptr};
 const char *no_faults[] = {nullptr};
 std::vector<unsigned char> *long_seen;
 int long_destroyed;
@@ -35,6 +36,7 @@ void reset()
   memset(&m, 0, sizeof m);
   long_done = false;
   long_destroyed = 0;
+  far_expected = far_done_seen = 0;
   for (int i = 0; i <= C08C_MAXN; i++)
     m.link[i] = -1;
   m.head = m.keep = m.zroot = -1;
@@ -46,6 +48,12 @@ void do_plan(int)
   for (int k = 0; k < C08C_MAXN; k++)
     plan.move[k] = (int)sim_plan(3);
   plan.self_at = sim_plan(4) == 0 ? (int)sim_plan((uint32_t)plan.n) : -1;
+  plan.far_apart = 0;
+  if (sim_plan(30) == 0) {
+    plan.far_apart = 1 + (int)sim_plan(63);
+    sim_probe(P_FAR_APART);
+    return;
+  }
   plan.long_n = 0;
   if (sim_plan(40) == 0) {
     // depth is an input size too: thousands of objects that each hold the only reference to the next
@@ -109,6 +117,11 @@ void settle(const char *when)
 }
 void check()
 {
+  if (plan.far_apart > 0) {
+    if (!far_done_seen && !sim_failed())
+      sim_fail("C08:chain:scenario-did-not-finish", "the comparison of far-apart handles did not finish");
+    return;
+  }
   if (plan.long_n > 0) {
     if (!long_done && !sim_failed())
       sim_fail("C08:chain:scenario-did-not-finish", "the release of the long chain did not return");
@@ -130,6 +143,10 @@ int stuck(int deadlock, char *cls, size_t n)
 }
 void describe(char *buf, size_t n)
 {
+  if (plan.far_apart > 0) {
+    snprintf(buf, n, "{\"handles_compared_for_objects_apart_by_mask\": %d, \"distances\": \"2^31, 2^32, 3*2^32, 2^32+64, 2^33-64, 64\"}", plan.far_apart);
+    return;
+  }
   if (plan.long_n > 0) {
     snprintf(buf, n, "{\"chain_of_nodes\": %d, \"operation\": \"head = nullptr\"}", plan.long_n);
     return;
@@ -167,6 +184,27 @@ void c08c_roots(int head, int keep)
   m.head = head;
   m.keep = keep;
   m.rooted = true;
+}
+void c08c_far_result(int which, int a_is_b, int eq, int ne, int lt, int gt, unsigned long long addr_a, unsigned long long addr_b)
+{
+  sim_event(830, (uint64_t)which << 8 | (uint64_t)a_is_b, (uint64_t)(eq | ne << 1 | lt << 2 | gt << 3));
+  far_expected++;
+  bool same = addr_a == addr_b;
+  if ((eq != 0) != same || (ne != 0) == same)
+    sim_fail("C08:handles-compare-wrong", "handles to %s (addresses %#llx and %#llx): == gives %d, != gives %d", same ? "the same object" : "two different objects",
+             addr_a, addr_b, eq, ne);
+  else if (same ? (lt || gt) : ((lt != 0) != (addr_a < addr_b) || (gt != 0) != (addr_b < addr_a)))
+    sim_fail("C08:handles-order-wrong", "handles to objects at %#llx and %#llx: a < b gives %d, b < a gives %d", addr_a, addr_b, lt, gt);
+}
+void c08c_far_done(int destroyed)
+{
+  sim_event(831, (uint64_t)(unsigned)destroyed, 0);
+  far_done_seen = 1;
+  if (destroyed < 0)
+    return;  // the address space could not be reserved: nothing was compared
+  int want = 1 + __builtin_popcount((unsigned)plan.far_apart & 63);
+  if (destroyed != want)
+    sim_fail("C08:chain:destroy-count", "%d far-apart objects were created and released, %d were destroyed", want, destroyed);
 }
 void c08c_long_begin(int n)
 {
